@@ -255,6 +255,20 @@ def majority_vote_byte_scan(relfilepath, fileslist, outpath, blocksize=65535, de
         # Else we return the error code and error message tuple we have
         return rtncodemesg
 
+def check_file_with_database(filepath, relfilepath, database):
+    ''' Check a file against the hashes recorded in a rfigc database for its relative path (relative to the root of the tree, as stored by rfigc when the database was generated on the whole tree).
+    Returns True if the file matches the md5 and sha1 hashes of every entry recorded for this relative path, False if it does not, and None if the database has no entry for this relative path (nothing can be said about the file). '''
+    result = None
+    md5hash = sha1hash = None
+    with _open_csv(database, 'r') as dbf:
+        for row in csv.DictReader(dbf, lineterminator='\n', delimiter='|', quotechar='"'):
+            if not row['path'] or path2unix(row['path']) != relfilepath: continue
+            # Compute the hashes only once, and only if there is an entry for this file
+            if md5hash is None: md5hash, sha1hash = rfigc.generate_hashes(filepath)
+            if md5hash != row['md5'] or sha1hash != row['sha1']: return False
+            result = True
+    return result
+
 def synchronize_files(inputpaths, outpath, database=None, tqdm_bar=None, report_file=None, ptee=None, verbose=False):
     ''' Main function to synchronize files contents by majority vote
     The main job of this function is to walk through the input folders and align the files, so that we can compare every files across every folders, one by one.
@@ -348,7 +362,7 @@ def synchronize_files(inputpaths, outpath, database=None, tqdm_bar=None, report_
             correct_file = None
             if database:
                 for id, filepath in enumerate(fileslist):
-                    if rfigc.main("-i \"%s\" -d \"%s\" -m --silent" % (filepath, database)) == 0:
+                    if check_file_with_database(filepath, relfilepath, database):
                         correct_file = filepath
                         correct_id = to_process[id][0]
                         break
@@ -367,7 +381,11 @@ def synchronize_files(inputpaths, outpath, database=None, tqdm_bar=None, report_
 
         # After-merge/move check using rfigc database, if provided
         if database:
-            if rfigc.main("-i \"%s\" -d \"%s\" -m --silent" % (outpathfull, database)) == 1:
+            dbcheck = check_file_with_database(outpathfull, relfilepath, database)
+            if dbcheck is None:
+                # No entry for this file in the database: we cannot tell, so the file is not marked as correct
+                pass
+            elif not dbcheck:
                 errcode = 1
                 if report_file: r_row[-3] = "KO"
                 if not errmsg: errmsg = ''
